@@ -250,7 +250,76 @@ class EnzymeWrap(object):
             import Bio.Seq
 
             return self.real.search(Bio.Seq.Seq(d), linear)
-        raise Unsupported("enzyme.search on a symbolic sequence (only catalyse is modelled)")
+        # only the number of reported cut positions is modelled (same count as the digest's cuts)
+        return FragmentTuple(self._count_cuts(dna, linear))
+
+    @property
+    def compsite(self):
+        return CompSiteWrap(self.real)
+
+
+class CompSiteWrap(object):
+    """the enzyme's compiled search pattern; on a symbolic text only the number of (case-sensitive, overlapping,
+    one per position) hits of findall/finditer is modelled"""
+
+    def __init__(self, real):
+        self._enz = real
+        self._rx = real.compsite
+
+    def __getattr__(self, k):
+        return getattr(self._rx, k)
+
+    def _count(self, text):
+        import z3
+        from ..core import mkint
+
+        data = text._d if isinstance(text, Seq) else text
+        if isinstance(data, str):
+            return None
+        words = _site_classes(self._enz)
+        size = self._enz.size
+        M = data.maxlen
+        letters = [data.get(j) for j in range(M)]
+        terms, conc = [], 0
+        one, zero = z3.IntVal(1), z3.IntVal(0)
+        length = data.n
+        for j in range(M - size + 1):
+            hit = False
+            for classes, _ in words:
+                hit = _zor(hit, _classes_at(letters, j, classes))
+            if hit is False:
+                continue
+            if not isinstance(length, int):
+                hit = z3.And(hit, length.e >= j + size) if hit is not True else (length.e >= j + size)
+            elif j + size > length:
+                continue
+            if hit is True:
+                conc += 1
+            else:
+                terms.append(z3.If(hit, one, zero))
+        return mkint(z3.Sum(terms) + conc) if terms else conc
+
+    def findall(self, text, *a):
+        c = None if a else self._count(text)
+        if c is None:
+            if a or isinstance(text, str):
+                return self._rx.findall(text, *a)
+            raise Unsupported("compsite.findall with bounds on a symbolic text")
+        return FragmentTuple(c)
+
+    def finditer(self, text, *a):
+        c = None if a else self._count(text)
+        if c is None:
+            if a or isinstance(text, str):
+                return self._rx.finditer(text, *a)
+        raise Unsupported("compsite.finditer on a symbolic text")
+
+    def search(self, text, *a):
+        if isinstance(text, str):
+            return self._rx.search(text, *a)
+        raise Unsupported("compsite.search on a symbolic text")
+
+    match = search
 
 
 class RestrictionModule(types.ModuleType):
